@@ -81,13 +81,13 @@ func H_C06(name string, c1, c2, c3, dn int) {
 }
 
 func setDay(s *asset.Snapshot, i int) { vrt.SetField(&s.Date, "ext", int64(i+1)) }
-func dayOf(d time.Time) int         { return int(vrt.GetField(&d, "ext").(int64)) - 1 }
+func dayOf(d time.Time) int           { return int(vrt.GetField(&d, "ext").(int64)) - 1 }
 
 type colData struct {
-	name   string
-	isNum  bool
-	nums   []float64
-	strs   []string
+	name  string
+	isNum bool
+	nums  []float64
+	strs  []string
 }
 
 // drainReport reads the date stream and every column's stream concurrently.
